@@ -67,8 +67,42 @@ func sigTamper(kind string) *rhpx.Tamper {
 		return &rhpx.Tamper{Revision: func(r *types.V2FileContract) { r.RevisionNumber++ }}
 	case "other-key":
 		return &rhpx.Tamper{SigKey: &otherKey}
+	case "bad-input-sig":
+		// contract / renewal signatures are right, the signatures of the
+		// renter's funding inputs are not: every check the handler does itself
+		// passes, the pool rejects the finished set
+		return &rhpx.Tamper{SecondMessage: func(o proto4.Object) {
+			var pols []types.SatisfiedPolicy
+			switch m := o.(type) {
+			case *proto4.RPCFormContractSecondResponse:
+				pols = m.RenterSatisfiedPolicies
+			case *proto4.RPCRenewContractSecondResponse:
+				pols = m.RenterSatisfiedPolicies
+			}
+			for i := range pols {
+				for j := range pols[i].Signatures {
+					pols[i].Signatures[j][0] ^= 1
+				}
+			}
+		}}
+	case "double-spend":
+		// the renter's funding inputs are spent by another pooled transaction
+		// right before the renter sends its (valid) signatures
+		return &rhpx.Tamper{DoubleSpend: true}
 	}
 	return nil
+}
+
+// poolFaults are the deviations that make the host's pool reject the finished
+// transaction set of form / renew / refresh.
+var poolFaults = []string{"bad-input-sig", "double-spend"}
+
+func fundsTxn(kind string) bool {
+	switch kind {
+	case "form", "renew", "refresh-full", "refresh-partial":
+		return true
+	}
+	return false
 }
 
 var mutatingOps = map[string]bool{
@@ -122,6 +156,9 @@ func (x *c09) fault(m *mcontract, f Fault, op C09Op) error {
 	var proofErr error
 	size := len(m.Roots)
 	if f.Kind == "write" && f.Sig != "" {
+		return nil
+	}
+	if (f.Sig == "bad-input-sig" || f.Sig == "double-spend") && !fundsTxn(f.Kind) {
 		return nil
 	}
 
@@ -327,6 +364,15 @@ func (x *c09) fault(m *mcontract, f Fault, op C09Op) error {
 		if err := quietLog(x.H.Log.Since(logFrom)); err != nil {
 			return fmt.Errorf("%s (%v): %w", what, res, err)
 		}
+		if fundsTxn(f.Kind) && f.Kind != "form" {
+			if rs, unlock, err := x.H.Contractor.LockV2Contract(m.ID.V2RenewalID()); err == nil {
+				unlock()
+				return fmt.Errorf("%s (%v): the exchange failed but the host now holds a contract under the renewal id with %d roots", what, res, len(rs.Roots))
+			}
+		}
+		if f.Sig == "bad-input-sig" || f.Sig == "double-spend" {
+			x.cs.Class("pool-rejects-finished-set:" + f.Kind)
+		}
 		return x.check(fmt.Sprintf("%s (%v)", what, res), &before)
 	}
 	x.cs.Class("fault-committed")
@@ -528,6 +574,11 @@ func TestC09Faults(t *testing.T) {
 				fn(Fault{Kind: kind, Sig: s})
 			}
 		}
+		if fundsTxn(kind) {
+			for _, s := range poolFaults {
+				fn(Fault{Kind: kind, Sig: s})
+			}
+		}
 	}
 	maxSize := 3
 	if kit.Thorough() {
@@ -559,6 +610,6 @@ func TestC09Faults(t *testing.T) {
 			forAll(kind, func(f Fault) { add(size, f, C09Op{}) })
 		}
 	}
-	rule := fmt.Sprintf("fault enumeration: {append, free (every non-empty subset), replenish accounts, replenish pools, fund, sector roots, write, form, renew, refresh full, refresh partial} x {close before each renter step, host deadline fires while it waits for the renter, half a message then close} + {random signature, signature over another revision number, signature by another key} at the signing point, on contracts of 0..%d sectors; afterwards an honest append, free and full root listing on the same contract", maxSize)
+	rule := fmt.Sprintf("fault enumeration: {append, free (every non-empty subset), replenish accounts, replenish pools, fund, sector roots, write, form, renew, refresh full, refresh partial} x {close before each renter step, host deadline fires while it waits for the renter, half a message then close} + {random signature, signature over another revision number, signature by another key} at the signing point + for form / renew / refresh {renter input signatures invalid, renter inputs double-spent through the pool right before the signatures are sent} (every handler check passes, the pool rejects the finished set), on contracts of 0..%d sectors; afterwards an honest append, free and full root listing on the same contract", maxSize)
 	runDirect(t, rule, cases)
 }
